@@ -21,15 +21,15 @@ func ReplayCase(bin, verif, prop, tier string, seed int64, nshards, idx int, wan
 	cmd.Stdout = os.Stdout
 	cmd.Stderr = os.Stderr
 	werr := cmd.Run()
-	sum, viols, inc, _, lastBegun, lastEnded := readStream(out)
+	_, done, viols, inc, _, lastBegun, lastEnded := readStream(out)
 	races := parseRaceLogs(filepath.Join(work, "race"))
-	fmt.Printf("replay %s case %d: worker=%v cases=%v violations=%d inconclusive=%d races=%d\n", prop, idx, werr, sum != nil, len(viols), len(inc), len(races))
+	fmt.Printf("replay %s case %d: worker=%v finished=%v violations=%d inconclusive=%d races=%d\n", prop, idx, werr, done, len(viols), len(inc), len(races))
 	rc := 0
 	for _, v := range viols {
 		fmt.Printf("  clause=%s sig=%s\n  %s\n", v.Clause, v.Sig, v.Detail)
 		rc = 1
 	}
-	if sum == nil && lastBegun >= 0 && lastBegun != lastEnded {
+	if !done && lastBegun >= 0 && lastBegun != lastEnded {
 		fmt.Printf("  worker crashed inside case %d\n", lastBegun)
 		rc = 1
 	}
